@@ -65,7 +65,7 @@ def grid_eval(fn_point, t, x):
     return np.array(out.tolist(), dtype=float)
 
 
-def impl_vs_impl(rng, n, residuals_only=False):
+def impl_vs_impl(rng, n, residuals_only=False, terms_only=False):
     """separable vs pointwise on the built-in residuals and on the loss terms (tolerance 1e-9); the number of
     points per axis is 1, 2 or 3 (fewer, as many, more than the space dimension)"""
     jax, jnp, np, eqx, jinns = jx()
@@ -76,7 +76,7 @@ def impl_vs_impl(rng, n, residuals_only=False):
     for rnd in range(n):
         B = [1, 2, 3][rnd % 3]
         t = jnp.array([[dy(rng, 0, 3) + 0.125 * k] for k in range(B)])
-        for name, mk, dx, eqp in [
+        for name, mk, dx, eqp in [] if terms_only else [
                 ("BurgerEquation", lambda: jinns.loss.BurgerEquation(Tmax=2.0), 1, {"nu": jnp.array(0.25)}),
                 ("FisherKPP", lambda: jinns.loss.FisherKPP(Tmax=2.0), rng.choice([1, 2]), {"D": jnp.array(0.5), "r": jnp.array(1.5), "g": jnp.array(0.75)}),
                 ("OU_FPENonStatioLoss2D", lambda: jinns.loss.OU_FPENonStatioLoss2D(Tmax=2.0), 2, {"alpha": jnp.array([0.5, 0.75]), "mu": jnp.array([0.25, -0.5]), "sigma": jnp.array([0.5, 1.0])})]:
@@ -94,7 +94,7 @@ def impl_vs_impl(rng, n, residuals_only=False):
         eqp = {"rho": jnp.array(2.0), "nu": jnp.array(0.5)}
         PDs = ParamsDict(nn_params={"u": su.init_params(), "p": sp.init_params()}, eq_params=eqp)
         PDt = ParamsDict(nn_params={"u": tu.init_params(), "p": tp.init_params()}, eq_params=eqp)
-        for nm, L in [("NavierStokes2DStatio", jinns.loss.NavierStokes2DStatio(u_key="u", p_key="p")), ("MassConservation2DStatio", jinns.loss.MassConservation2DStatio(nn_key="u"))]:
+        for nm, L in [] if terms_only else [("NavierStokes2DStatio", jinns.loss.NavierStokes2DStatio(u_key="u", p_key="p")), ("MassConservation2DStatio", jinns.loss.MassConservation2DStatio(nn_key="u"))]:
             fw = np.asarray(L.evaluate(x, {"u": su, "p": sp}, PDs))
             rv = grid_eval(lambda tt, xx: L.evaluate(xx, {"u": tu, "p": tp}, PDt), None, x)
             if not close(fw.reshape(rv.shape), rv):
